@@ -20,6 +20,9 @@ BENIGN = '--benign' in args
 RERUN = '--rerun' in args
 # --known-only: re-run only the checks that reported the change before plus the check of its own property
 KNOWN_ONLY = '--known-only' in args
+# --own-first (first evaluation of a new change): the check of the change's own property first; all the others only when
+# that one stays silent (meta.json then says which scope was run)
+OWN_FIRST = '--own-first' in args
 if '--workers' in args:
     i = args.index('--workers'); W = int(args[i + 1]); del args[i:i + 2]
 args = [a for a in args if not a.startswith('--')]
@@ -101,7 +104,15 @@ def evaluate(S, name, d):
     if RERUN and KNOWN_ONLY and not BENIGN:
         m = json.load(open(os.path.join(d, 'meta.json')))
         ids = ' '.join(sorted(set(m.get('quick_checks_reporting_a_violation', {})) | {m['property']}))
+    if OWN_FIRST and not RERUN and not BENIGN:
+        ids = name.split('-')[0]
     out = sh(f'{S}/verif/tools/run_all.sh quick {ids}', env=env2).stdout
+    if OWN_FIRST and not RERUN and not BENIGN and not re.search(r'^%s 1 ' % ids, out, flags=re.M):
+        rest = ' '.join(k for k in sorted(props) if k != ids)
+        out += sh(f'{S}/verif/tools/run_all.sh quick {rest}', env=env2).stdout
+        res['scope'] = 'all quick checks'
+    elif OWN_FIRST and not RERUN and not BENIGN:
+        res['scope'] = 'the check of its own property only (it reported the change)'
     det = {}
     for line in out.splitlines():
         m = re.match(r'^(C\d+) (\d+) ?(.*)$', line)
@@ -161,6 +172,7 @@ def keep(name, d, res):
         'caught_by_own_property_check': pid in res['caught'],
         'checks_ending_with_a_machinery_exit': res['machinery'],
     }
+    if 'scope' in res: meta['first_evaluation_scope'] = res['scope']
     json.dump(meta, open(os.path.join(dst, 'meta.json'), 'w'), indent=1)
 
 def worker(k):
